@@ -4,6 +4,7 @@ mod ae;
 mod clock;
 mod conn;
 mod crdt;
+mod image;
 mod ks;
 mod parse;
 mod place;
@@ -63,6 +64,7 @@ fn main() {
         "shard" => shard::main(rest),
         "conn" => conn::main(rest),
         "parse" => parse::main(rest),
+        "image" => image::main(rest),
         m => {
             eprintln!("unknown module {m}");
             2
